@@ -627,3 +627,242 @@ Proof.
 Qed.
 
 End UstarOkStrings2.
+
+(* ------------------------------------------------------------------ the same for any 512-byte templated header *)
+Definition ck_ok (cko : nat) (ck : list Z -> list Z) : Prop :=
+  forall h o n, length h = 512 -> (o + n <= cko \/ cko + 7 <= o) -> slice o n (ck h) = slice o n h.
+
+Lemma hdr_field_slice : forall ws tmpl ck cko o bs ws1 ws2,
+  length tmpl = 512 -> Forall (inb 512) ws -> ck_ok cko ck ->
+  ws = ws1 ++ (o, bs) :: ws2 -> Forall (away o (length bs)) ws2 ->
+  (o + length bs <= cko \/ cko + 7 <= o) ->
+  slice o (length bs) (ck (apply_writes ws tmpl)) = bs.
+Proof.
+  intros ws tmpl ck cko o bs ws1 ws2 HL HI Hck Heq Haway Ho.
+  rewrite Hck; [| rewrite apply_writes_length; rewrite HL; [reflexivity | assumption] | assumption].
+  rewrite Heq. apply apply_writes_field; [|assumption]. rewrite <- Heq. rewrite HL. assumption.
+Qed.
+
+Lemma hdr_untouched : forall ws tmpl ck cko o n,
+  length tmpl = 512 -> Forall (inb 512) ws -> ck_ok cko ck ->
+  Forall (away o n) ws -> (o + n <= cko \/ cko + 7 <= o) ->
+  slice o n (ck (apply_writes ws tmpl)) = slice o n tmpl.
+Proof.
+  intros ws tmpl ck cko o n HL HI Hck Haway Ho.
+  rewrite Hck; [| rewrite apply_writes_length; rewrite HL; [reflexivity | assumption] | assumption].
+  apply apply_writes_slice_other; [rewrite HL|]; assumption.
+Qed.
+
+(* a numeric field of s digits written by the strict formatter and read through a window of s + k bytes
+   whose last k bytes are the template's terminator *)
+Lemma hdr_num_strict : forall ws tmpl ck cko o v s mx k term ws1 ws2,
+  length tmpl = 512 -> Forall (inb 512) ws -> ck_ok cko ck ->
+  ws = ws1 ++ (o, snd (ustar_format_number v s mx true)) :: ws2 ->
+  Forall (away o s) ws2 -> Forall (away (o + s) k) ws ->
+  (o + s + k <= cko \/ cko + 7 <= o) ->
+  slice (o + s) k tmpl = term -> stops 8 term -> (0 < s <= 19) ->
+  fst (ustar_format_number v s mx true) = 0%Z ->
+  tar_atol (slice o (s + k) (ck (apply_writes ws tmpl))) = v.
+Proof.
+  intros ws tmpl ck cko o v s mx k term ws1 ws2 HL HI Hck Heq Ha1 Ha2 Ho Hterm Hstop Hs Hok.
+  rewrite slice_split.
+  pose proof (ustar_fn_strict_length v s mx) as Hlen.
+  rewrite <- Hlen at 1.
+  rewrite (hdr_field_slice ws tmpl ck cko o _ ws1 ws2 HL HI Hck Heq); [| rewrite Hlen; assumption | rewrite Hlen; lia].
+  rewrite (hdr_untouched ws tmpl ck cko (o + s) k HL HI Hck Ha2) by lia.
+  rewrite Hterm. apply ustar_strict_exact; assumption.
+Qed.
+
+(* ------------------------------------------------------------------ v7tar *)
+Ltac leaf7 :=
+  unfold inb, away; cbn [fst snd length];
+  rewrite ?ustar_fn_strict_length, ?ustar_format_octal_length, ?firstn_length;
+  unfold V7TAR_name_offset, V7TAR_name_size, V7TAR_mode_offset, V7TAR_mode_size, V7TAR_uid_offset, V7TAR_uid_size,
+    V7TAR_gid_offset, V7TAR_gid_size, V7TAR_size_offset, V7TAR_size_size, V7TAR_mtime_offset, V7TAR_mtime_size,
+    V7TAR_checksum_offset, V7TAR_checksum_size, V7TAR_typeflag_offset, V7TAR_linkname_offset, V7TAR_linkname_size in *;
+  lia.
+
+Lemma v7tar_fields_inb : forall e, Forall (inb 512) (snd (v7tar_fields e true)).
+Proof.
+  intros. unfold v7tar_fields. cbv zeta. cbn [snd].
+  apply Forall_app; split.
+  - apply Forall_wr_if. intros H. apply Nat.ltb_lt in H. leaf7.
+  - apply Forall_app; split; [apply Forall_wr_if; intros _; leaf7|].
+    apply Forall_app; split; [repeat constructor; leaf7|].
+    destruct (0 <=? mytartype_of e)%Z; [repeat constructor; leaf7|].
+    destruct ((filetype e =? IFREG)%Z || (filetype e =? IFDIR)%Z); [constructor|].
+    destruct (filetype e =? IFLNK)%Z; [repeat constructor; leaf7 | constructor].
+Qed.
+
+Lemma ck_ok_v7 : ck_ok V7TAR_checksum_offset tar_checksum_v7.
+Proof.
+  intros h o n HL Ho. unfold tar_checksum_v7.
+  rewrite slice_put_other.
+  - apply slice_put_other; rewrite ?ustar_format_octal_length; unfold V7TAR_checksum_offset in *; lia.
+  - rewrite put_length; rewrite ?ustar_format_octal_length; cbn [length]; unfold V7TAR_checksum_offset in *; lia.
+  - cbn [length]. unfold V7TAR_checksum_offset in *. lia.
+Qed.
+
+Theorem v7tar_header_length : forall e, length (snd (v7tar_header e true)) = 512.
+Proof.
+  intros. unfold v7tar_header, tar_checksum_v7. cbn [snd].
+  assert (HL : length (apply_writes (snd (v7tar_fields e true)) v7tar_template) = 512)
+    by (rewrite apply_writes_length; [reflexivity | apply v7tar_fields_inb]).
+  rewrite put_length; rewrite put_length; rewrite ?ustar_format_octal_length; cbn [length]; rewrite ?HL;
+    unfold V7TAR_checksum_offset; try lia.
+Qed.
+
+Record v7tar_ok_facts (e : entry) : Prop := {
+  vf_name : length (ob (e_path e)) < V7TAR_name_size;
+  vf_link : length (linkname_of e) < V7TAR_linkname_size;
+  vf_mode : fst (ustar_format_number (Z.land (e_mode e) 4095) V7TAR_mode_size V7TAR_mode_max_size true) = 0%Z;
+  vf_uid : fst (ustar_format_number (e_uid e) V7TAR_uid_size V7TAR_uid_max_size true) = 0%Z;
+  vf_gid : fst (ustar_format_number (e_gid e) V7TAR_gid_size V7TAR_gid_max_size true) = 0%Z;
+  vf_size : fst (ustar_format_number (size_of e) V7TAR_size_size V7TAR_size_max_size true) = 0%Z;
+  vf_mtime : fst (ustar_format_number (e_mtime e) V7TAR_mtime_size V7TAR_mtime_max_size true) = 0%Z
+}.
+
+Lemma v7tar_ok : forall e, fst (v7tar_fields e true) = 0%Z -> v7tar_ok_facts e.
+Proof.
+  intros e H. unfold v7tar_fields in H. cbv zeta in H. cbn [fst] in H.
+  repeat match type of H with
+  | pick _ ST_FAILED _ = 0%Z => apply (pick_zero _ _ _ ST_FAILED_nz) in H; let C := fresh "C" in destruct H as [C H]
+  end.
+  constructor; try (apply negb_eqb0; assumption).
+  - apply negb_false_iff in C5. apply Nat.ltb_lt. assumption.
+  - apply Nat.leb_gt. assumption.
+Qed.
+
+Ltac v7_away := unfold v7tar_fields; cbv zeta; cbn [snd];
+  repeat match goal with
+  | |- Forall _ (_ ++ _) => apply Forall_app; split
+  | |- Forall _ (wr_if _ _ _) => apply Forall_wr_if; let H := fresh in intros H; try apply Nat.ltb_lt in H
+  | |- Forall _ (_ :: _) => constructor
+  | |- Forall _ [] => constructor
+  | |- Forall _ (match ?x with _ => _ end) => destruct x
+  | |- Forall _ (if ?x then _ else _) => destruct x
+  end; try leaf7.
+
+Section V7Ok.
+Variable e : entry.
+Hypothesis Hok : fst (v7tar_header e true) = 0%Z.
+Let facts : v7tar_ok_facts e := v7tar_ok e Hok.
+
+Ltac v7_num o s k getter :=
+  unfold v7tar_header; cbn [snd];
+  eapply (hdr_num_strict (snd (v7tar_fields e true)) v7tar_template tar_checksum_v7 V7TAR_checksum_offset o _ s _ k);
+  [ reflexivity | apply v7tar_fields_inb | apply ck_ok_v7
+  | unfold v7tar_fields; cbv zeta; cbn [snd]; repeat rewrite <- app_assoc; cbn [app]; reflexivity
+  | v7_away | v7_away | leaf7 | reflexivity | cbn; lia | lia | apply (getter _ facts) ].
+
+Theorem v7tar_ok_mode : tar_atol (slice R_tar_mode_offset R_tar_mode_size (snd (v7tar_header e true))) = Z.land (e_mode e) 4095.
+Proof.
+  unfold v7tar_header; cbn [snd].
+  eapply (hdr_num_strict (snd (v7tar_fields e true)) v7tar_template tar_checksum_v7 V7TAR_checksum_offset
+            V7TAR_mode_offset _ 6 _ 2 _
+            (wr_if (length (ob (e_path e)) <? V7TAR_name_size) V7TAR_name_offset (ob (e_path e))
+             ++ wr_if (0 <? length (linkname_of e)) V7TAR_linkname_offset (firstn V7TAR_linkname_size (linkname_of e)))).
+  - reflexivity.
+  - apply v7tar_fields_inb.
+  - apply ck_ok_v7.
+  - unfold v7tar_fields; cbv zeta; cbn [snd]. repeat rewrite <- app_assoc. cbn [app]. reflexivity.
+  - v7_away.
+  - v7_away.
+  - leaf7.
+  - reflexivity.
+  - cbn; lia.
+  - lia.
+  - apply (vf_mode _ facts).
+Qed.
+
+Theorem v7tar_ok_uid : tar_atol (slice R_tar_uid_offset R_tar_uid_size (snd (v7tar_header e true))) = e_uid e.
+Proof.
+  unfold v7tar_header; cbn [snd].
+  eapply (hdr_num_strict (snd (v7tar_fields e true)) v7tar_template tar_checksum_v7 V7TAR_checksum_offset
+            V7TAR_uid_offset _ 6 _ 2 _
+            (wr_if (length (ob (e_path e)) <? V7TAR_name_size) V7TAR_name_offset (ob (e_path e))
+             ++ wr_if (0 <? length (linkname_of e)) V7TAR_linkname_offset (firstn V7TAR_linkname_size (linkname_of e))
+             ++ [(V7TAR_mode_offset, snd (ustar_format_number (Z.land (e_mode e) 4095) V7TAR_mode_size V7TAR_mode_max_size true))])).
+  - reflexivity.
+  - apply v7tar_fields_inb.
+  - apply ck_ok_v7.
+  - unfold v7tar_fields; cbv zeta; cbn [snd]. repeat rewrite <- app_assoc. cbn [app]. reflexivity.
+  - v7_away.
+  - v7_away.
+  - leaf7.
+  - reflexivity.
+  - cbn; lia.
+  - lia.
+  - apply (vf_uid _ facts).
+Qed.
+
+Theorem v7tar_ok_gid : tar_atol (slice R_tar_gid_offset R_tar_gid_size (snd (v7tar_header e true))) = e_gid e.
+Proof.
+  unfold v7tar_header; cbn [snd].
+  eapply (hdr_num_strict (snd (v7tar_fields e true)) v7tar_template tar_checksum_v7 V7TAR_checksum_offset
+            V7TAR_gid_offset _ 6 _ 2 _
+            (wr_if (length (ob (e_path e)) <? V7TAR_name_size) V7TAR_name_offset (ob (e_path e))
+             ++ wr_if (0 <? length (linkname_of e)) V7TAR_linkname_offset (firstn V7TAR_linkname_size (linkname_of e))
+             ++ [(V7TAR_mode_offset, snd (ustar_format_number (Z.land (e_mode e) 4095) V7TAR_mode_size V7TAR_mode_max_size true));
+                 (V7TAR_uid_offset, snd (ustar_format_number (e_uid e) V7TAR_uid_size V7TAR_uid_max_size true))])).
+  - reflexivity.
+  - apply v7tar_fields_inb.
+  - apply ck_ok_v7.
+  - unfold v7tar_fields; cbv zeta; cbn [snd]. repeat rewrite <- app_assoc. cbn [app]. reflexivity.
+  - v7_away.
+  - v7_away.
+  - leaf7.
+  - reflexivity.
+  - cbn; lia.
+  - lia.
+  - apply (vf_gid _ facts).
+Qed.
+
+Theorem v7tar_ok_size : tar_atol (slice R_tar_size_offset R_tar_size_size (snd (v7tar_header e true))) = size_of e.
+Proof.
+  unfold v7tar_header; cbn [snd].
+  eapply (hdr_num_strict (snd (v7tar_fields e true)) v7tar_template tar_checksum_v7 V7TAR_checksum_offset
+            V7TAR_size_offset _ 11 _ 1 _
+            (wr_if (length (ob (e_path e)) <? V7TAR_name_size) V7TAR_name_offset (ob (e_path e))
+             ++ wr_if (0 <? length (linkname_of e)) V7TAR_linkname_offset (firstn V7TAR_linkname_size (linkname_of e))
+             ++ [(V7TAR_mode_offset, snd (ustar_format_number (Z.land (e_mode e) 4095) V7TAR_mode_size V7TAR_mode_max_size true));
+                 (V7TAR_uid_offset, snd (ustar_format_number (e_uid e) V7TAR_uid_size V7TAR_uid_max_size true));
+                 (V7TAR_gid_offset, snd (ustar_format_number (e_gid e) V7TAR_gid_size V7TAR_gid_max_size true))])).
+  - reflexivity.
+  - apply v7tar_fields_inb.
+  - apply ck_ok_v7.
+  - unfold v7tar_fields; cbv zeta; cbn [snd]. repeat rewrite <- app_assoc. cbn [app]. reflexivity.
+  - v7_away.
+  - v7_away.
+  - leaf7.
+  - reflexivity.
+  - cbn; lia.
+  - lia.
+  - apply (vf_size _ facts).
+Qed.
+
+Theorem v7tar_ok_mtime : tar_atol (slice R_tar_mtime_offset R_tar_mtime_size (snd (v7tar_header e true))) = e_mtime e.
+Proof.
+  unfold v7tar_header; cbn [snd].
+  eapply (hdr_num_strict (snd (v7tar_fields e true)) v7tar_template tar_checksum_v7 V7TAR_checksum_offset
+            V7TAR_mtime_offset _ 11 _ 1 _
+            (wr_if (length (ob (e_path e)) <? V7TAR_name_size) V7TAR_name_offset (ob (e_path e))
+             ++ wr_if (0 <? length (linkname_of e)) V7TAR_linkname_offset (firstn V7TAR_linkname_size (linkname_of e))
+             ++ [(V7TAR_mode_offset, snd (ustar_format_number (Z.land (e_mode e) 4095) V7TAR_mode_size V7TAR_mode_max_size true));
+                 (V7TAR_uid_offset, snd (ustar_format_number (e_uid e) V7TAR_uid_size V7TAR_uid_max_size true));
+                 (V7TAR_gid_offset, snd (ustar_format_number (e_gid e) V7TAR_gid_size V7TAR_gid_max_size true));
+                 (V7TAR_size_offset, snd (ustar_format_number (size_of e) V7TAR_size_size V7TAR_size_max_size true))])).
+  - reflexivity.
+  - apply v7tar_fields_inb.
+  - apply ck_ok_v7.
+  - unfold v7tar_fields; cbv zeta; cbn [snd]. repeat rewrite <- app_assoc. cbn [app]. reflexivity.
+  - v7_away.
+  - v7_away.
+  - leaf7.
+  - reflexivity.
+  - cbn; lia.
+  - lia.
+  - apply (vf_mtime _ facts).
+Qed.
+
+End V7Ok.
